@@ -1,6 +1,5 @@
 From Coq Require Import Extraction ExtrOcamlBasic.
-From LCP Require Import Base.ExtractBase Base.CheckedMem Gen.Repo_codec Gen.Repo_codec2
-  Util.EndianMem Util.Endian Util.B64 Util.SockText Util.Sock Util.LineFiles.
+From LCP Require Import Base.ExtractBase Base.CheckedMem Gen.Repo_codec Gen.Repo_codec2 Util.EndianMem Util.Endian Util.B64 Util.SockText Util.Sock Util.LineFiles.
 Extraction Language OCaml.
 Extraction "codec2.ml" force_number_types
   alloc b64chars b64encode_m b64decode_m b64_spec b64decode_spec b64len b64declen
